@@ -373,6 +373,44 @@ func ruleCliChunkBound(p *Prog, r *Out) {
 
 // ---------------------------------------------------------------- window writers
 
+// isRefund: the store adds to the field exactly the amount a debit in the same
+// function took from it, and it sits on the path where taking the request's
+// Ctx failed, i.e. where the debited bytes are not written.
+func (p *Prog) isRefund(st *ssa.Store, owner, field string) bool {
+	b, ok := stripConv(st.Val).(*ssa.BinOp)
+	if !ok || b.Op != token.ADD {
+		return false
+	}
+	ld := func(v ssa.Value) bool {
+		_, o, n, ok := p.loadOfField(stripConv(v))
+		return ok && o == owner && n == field
+	}
+	amount := b.Y
+	if !ld(b.X) {
+		if !ld(b.Y) {
+			return false
+		}
+		amount = b.X
+	}
+	amount = stripConv(amount)
+	debited := false
+	for _, blk := range st.Parent().Blocks {
+		for _, in := range blk.Instrs {
+			s2, ok := in.(*ssa.Store)
+			if !ok || s2 == st {
+				continue
+			}
+			if !p.fieldAddrIs(s2.Addr, owner, field) {
+				continue
+			}
+			if d, ok := stripConv(s2.Val).(*ssa.BinOp); ok && d.Op == token.SUB && ld(d.X) && stripConv(d.Y) == amount && s2.Block().Dominates(st.Block()) {
+				debited = true
+			}
+		}
+	}
+	return debited && p.hasFact(st, "acquireFor", false)
+}
+
 func ruleWindowWriters(p *Prog, r *Out) {
 	type wf struct{ owner, field string }
 	fields := []wf{{"serverConn", "clientWindow"}, {"Stream", "window"}, {"Conn", "connWindow"}, {"Conn", "streamWindow"}, {"pendingBody", "window"}}
@@ -380,10 +418,14 @@ func ruleWindowWriters(p *Prog, r *Out) {
 	allowed := map[string]map[string]string{
 		"serverConn.clientWindow": {"(*serverConn).Serve": "init", "(*serverConn).handleStreams": "credit", "(*serverConn).sendData": "debit"},
 		"Stream.window":           {"NewStream": "init", "(*Stream).SetWindow": "init", "(*Stream).IncrWindow": "credit", "(*serverConn).handleStreams": "credit", "(*serverConn).sendData": "debit", "(*serverConn).handleFrame": "credit"},
-		"Conn.connWindow":         {"NewConn": "init", "(*Conn).addWindow": "credit", "(*Conn).sendPending": "debit"},
+		"Conn.connWindow":         {"NewConn": "init", "(*Conn).addWindow": "credit", "(*Conn).sendPending": "debit|refund"},
 		"Conn.streamWindow":       {"NewConn": "init", "(*Conn).doHandshake": "init", "(*Conn).applyInitialWindow": "init"},
 		"pendingBody.window":      {"(*Conn).writeRequest": "init", "(*Conn).applyInitialWindow": "credit", "(*Conn).addWindow": "credit", "(*Conn).sendPending": "debit"},
 	}
+	refunded := map[string]bool{}
+	defer func() {
+		r.check(refunded["Conn.connWindow"], "connection window debited for bytes that are not written is given back", "conn.go", "refund on the path where the request's Ctx could not be taken", "(*Conn).sendPending debits the connection send window before it knows the bytes can be written and no longer gives it back when they cannot: every request taken back in that gap shrinks what all later streams may send")
+	}()
 	for _, w := range fields {
 		fq := w.owner + "." + w.field
 		for _, st := range p.storesTo(w.owner, w.field) {
@@ -409,8 +451,20 @@ func ruleWindowWriters(p *Prog, r *Out) {
 				}
 			}
 			want, ok := allowed[fq][fn]
+			// a refund gives back exactly what the same function debited, on
+			// the path where the bytes turned out not to be written
+			if kind == "credit" && strings.Contains(want, "refund") && p.isRefund(st.Store, w.owner, w.field) {
+				kind = "refund"
+				refunded[fq] = true
+			}
 			key := fn + " stores " + fq + " (" + kind + ")"
-			r.check(ok && want == kind, key, p.ipos(st.Store), "audited "+kind+" site",
+			inTable := false
+			for _, k := range strings.Split(want, "|") {
+				if k == kind {
+					inTable = true
+				}
+			}
+			r.check(ok && inTable, key, p.ipos(st.Store), "audited "+kind+" site",
 				fmt.Sprintf("%s writes %s as a %s; the audited writer table allows %q there. An unaudited write to a send window breaks the 'never overspent' induction the chunk-bound rules rest on", fn, fq, kind, want))
 		}
 	}
@@ -909,34 +963,45 @@ func ruleDataMustCredit(p *Prog, r *Out) {
 			frp = pa
 		}
 	}
-	vs := p.runOPA(opaSpec{fn: f, fr: frp, kinds: kinds,
-		discharge: func(in ssa.Instruction) bool {
-			return p.isCallTo(in, "(*Conn).readStream") || p.forwardsTo(in, "(*Conn).readStream") || isAcc(cliAcc)(in)
-		},
-		returnOK: func(*ssa.Return) bool { return false },
-	})
-	r.reportOPA(p, "client dispatch", vs, what)
-	if len(vs) == 0 {
-		r.ok("client dispatch", p.pos(f.Pos()), "every return has passed readStream")
-	}
+	// The debit sits either in readStream itself or, since the credit was
+	// moved out from under the request's Ctx, in dispatch after readStream has
+	// returned. readStream counts as accounting only if every DATA path through
+	// it debits.
+	var rsVs []opaViolation
+	rsAccounts := false
 	if rs := p.ssaFunc("(*Conn).readStream"); rs != nil {
-		var frp ssa.Value
+		var rfr ssa.Value
 		for _, pa := range rs.Params {
 			if p.isFrameHeaderPtr(pa.Type()) {
-				frp = pa
+				rfr = pa
 			}
 		}
-		vs := p.runOPA(opaSpec{fn: rs, fr: frp, kinds: kinds,
+		rsVs = p.runOPA(opaSpec{fn: rs, fr: rfr, kinds: kinds,
 			discharge: func(in ssa.Instruction) bool {
 				st, ok := in.(*ssa.Store)
 				return (ok && p.fieldAddrIs(st.Addr, "Conn", "currentWindow")) || isAcc(cliAcc)(in)
 			},
 			returnOK: func(*ssa.Return) bool { return false },
 		})
-		r.reportOPA(p, "client readStream", vs, what)
-		if len(vs) == 0 {
-			r.ok("client readStream DATA slice", p.pos(rs.Pos()), "currentWindow debited on every DATA path")
+		rsAccounts = len(rsVs) == 0
+	}
+	vs := p.runOPA(opaSpec{fn: f, fr: frp, kinds: kinds,
+		discharge: func(in ssa.Instruction) bool {
+			if isAcc(cliAcc)(in) {
+				return true
+			}
+			return rsAccounts && (p.isCallTo(in, "(*Conn).readStream") || p.forwardsTo(in, "(*Conn).readStream"))
+		},
+		returnOK: func(*ssa.Return) bool { return false },
+	})
+	r.reportOPA(p, "client dispatch", vs, what)
+	if len(vs) == 0 {
+		where := "dispatch"
+		if rsAccounts {
+			where = "readStream"
 		}
+		r.ok("client dispatch", p.pos(f.Pos()), "every return has accounted the DATA frame")
+		r.ok("client DATA slice", p.pos(f.Pos()), "currentWindow debited on every DATA path (in "+where+")")
 	}
 }
 
